@@ -61,7 +61,8 @@ type liveSwitchReader struct {
 	r         io.Reader
 	pr        *io.PipeReader
 	pipeCopyF func()
-	inHandler bool // the goroutine that reads is running a handler
+	inHandler bool      // the goroutine that reads is running a handler
+	waitSince time.Time // when the last handler returned
 }
 
 // setInHandler records whether the goroutine that reads is running a handler,
@@ -69,6 +70,9 @@ type liveSwitchReader struct {
 func (sr *liveSwitchReader) setInHandler(v bool) {
 	sr.Lock()
 	sr.inHandler = v
+	if !v {
+		sr.waitSince = time.Now()
+	}
 	sr.Unlock()
 }
 
@@ -128,11 +132,7 @@ func (c *conn) closeNotify() <-chan struct{} {
 			// pipe reader
 			// We should only swap the reader outside of r.Read call
 			c.sr.pipeCopyF = func() {
-				_, err := io.Copy(pw, readSource)
-				if err == nil {
-					err = io.EOF
-				}
-				pw.CloseWithError(err)
+				pw.CloseWithError(c.pipeCopy(pw, readSource))
 				c.notifyClientGone()
 			}
 			if c.sr.inHandler {
@@ -150,6 +150,43 @@ func (c *conn) closeNotify() <-chan struct{} {
 		}
 	}
 	return c.closeNotifyc
+}
+
+// pipeCopy copies what the connection receives to pw until reading fails,
+// and returns the error (io.EOF at the end of the stream). A read deadline
+// that expires while a handler runs, or before the wait that followed the
+// last handler has lasted ReadTimeout, is not an error: ReadTimeout bounds
+// the wait for a message, and that deadline was set when the wait for an
+// earlier message began. The deadline is moved on; the next wait sets its
+// own.
+func (c *conn) pipeCopy(pw *io.PipeWriter, src io.Reader) error {
+	buf := make([]byte, 32*1024)
+	for {
+		n, err := src.Read(buf)
+		if n > 0 {
+			if _, werr := pw.Write(buf[:n]); werr != nil {
+				return werr
+			}
+		}
+		if err == nil {
+			continue
+		}
+		if ne, ok := err.(net.Error); ok && ne.Timeout() && c.server.ReadTimeout > 0 {
+			c.sr.Lock()
+			inHandler, since := c.sr.inHandler, c.sr.waitSince
+			c.sr.Unlock()
+			now := time.Now()
+			if inHandler {
+				c.rwc.SetReadDeadline(now.Add(c.server.ReadTimeout))
+				continue
+			}
+			if d := since.Add(c.server.ReadTimeout); now.Before(d) {
+				c.rwc.SetReadDeadline(d)
+				continue
+			}
+		}
+		return err
+	}
 }
 
 func (c *conn) notifyClientGone() {
